@@ -1,5 +1,6 @@
 """C02 — / % quotient() (DESIGN 5, C02)."""
 from .common import *
+from .C01 import short
 from .C01 import sc, short, EXPS
 
 RULE = ('cases: dividend/divisor representations for pairs of scaled_integer instantiations (8..64-bit reps x 7 exponent pairs, '
@@ -22,6 +23,12 @@ def plan(tier, seed):
                 regs.append('c02::DivMod<%s, %s>::reg("%s:%d|%s:%d")' % (sc(lr, el), sc(rr, er), short(lr), el, short(rr), er))
     for lr, rr, el, er in [(S32, S32, -2, 0), (S64, S32, 0, -3), (S16, U8, 1, -1), (U32, U64, -4, -4), (S64, S64, 3, 5)]:
         regs.append('c02::DivMod<%s, %s>::reg("r10|%s:%d|%s:%d")' % (sc(lr, el, 10), sc(rr, er, 10), short(lr), el, short(rr), er))
+    # / and % over elastic_integer reps whose storage widths differ in either direction (and non-default Narrowest types)
+    ESI = 'cnl::elastic_scaled_integer<%d, cnl::power<%d>, %s>'
+    for (d1, e1, n1, d2, e2, n2) in [(31, 0, 'int', 40, 0, 'int'), (40, -8, 'int', 20, -3, 'int'), (7, -2, 'signed char', 15, 1, 'signed char'), (15, 0, 'signed char', 7, 0, 'signed char'),
+                                     (20, -4, 'unsigned', 33, 0, 'unsigned'), (62, -20, 'int', 62, -10, 'int'), (63, 0, 'int', 31, -5, 'int'), (8, 0, 'unsigned char', 30, -6, 'int'),
+                                     (31, -16, 'int', 64, 0, 'unsigned'), (100, -30, 'int', 40, 2, 'int')]:
+        regs.append('c02::DivMod<%s, %s>::reg("elastic%d_%s:%d|elastic%d_%s:%d")' % (ESI % (d1, e1, n1), ESI % (d2, e2, n2), d1, short(n1), e1, d2, short(n2), e2))
     # quotient: built-in integers, scaled with built-in reps, elastic_scaled_integer
     qpairs = [(S8, S8), (U8, U8), (S8, U8), (S16, S16), (S32, S32), (U32, U32), (S32, U16), (S64, S64), (U64, U64), (S64, S32), (U16, S64), (U32, S32), (U64, S64), (U64, S8)]
     for l, r in qpairs:
